@@ -59,3 +59,131 @@ func vh_C19_SecurityScheme() {
 	}
 	vAssert(vValidKind(wrap(out), "securityDefinitions"), "securityScheme: a valid document is no longer valid after decode/encode")
 }
+
+// ---- expansion half: a valid document whose re-encoding is valid is still valid after a successful expansion ----
+//
+// A small whole specification, valid by construction, in which one element (a parameter, a response, a
+// schema, a path item or an operation) is the symbolic free-form document of the round-trip harnesses and
+// is reached through references from the root document and from a second document. (A symbolic path item
+// is not among the kinds: seven symbolic operations under expansion did not finish within 25 minutes; the
+// referenced path item of the world is concrete.) The round-trip half
+// is taken as an assumption here (its own harnesses decide it and own its known findings), so that
+// this obligation isolates what the expander does to the document.
+
+func vJRef(ref string) vJ {
+	r := vJObj()
+	vJAdd(r, true, "$ref", vJStr(ref))
+	return r
+}
+
+func vJMember(name string, v vJ) vJ {
+	o := vJObj()
+	vJAdd(o, true, name, v)
+	return o
+}
+
+func vC19Pet(label string) vJ {
+	pet := vJObj()
+	vJAdd(pet, true, "description", vJStr(label))
+	vJAdd(pet, true, "type", vJStr("object"))
+	vJAdd(pet, true, "properties", vJMember("friend", vJRef("#/definitions/Pet")))
+	return pet
+}
+
+func vC19World(kind string, target vJ) (vJ, vJ) {
+	pick := func(k string, dflt vJ) vJ {
+		if k == kind {
+			return target
+		}
+		return dflt
+	}
+	plain := func(members ...string) vJ {
+		o := vJObj()
+		for i := 0; i+1 < len(members); i += 2 {
+			vJAdd(o, true, members[i], vJStr(members[i+1]))
+		}
+		return o
+	}
+	defs := func(label string) vJ {
+		d := vJObj()
+		vJAdd(d, true, "Pet", vC19Pet(label))
+		vJAdd(d, true, "T", pick("schema", plain("type", "string")))
+		return d
+	}
+	resp := func(label string) vJ {
+		r := plain("description", label)
+		vJAdd(r, true, "schema", vJRef("#/definitions/T"))
+		return r
+	}
+	body := plain("name", "b", "in", "body")
+	vJAdd(body, true, "schema", vJRef("#/definitions/T"))
+
+	// the second document: targets of the cross-document references
+	sub := vJObj()
+	vJAdd(sub, true, "definitions", defs("sub-pet"))
+	vJAdd(sub, true, "parameters", vJMember("Q1", pick("parameter", plain("name", "q1", "in", "header", "type", "string"))))
+	vJAdd(sub, true, "responses", vJMember("S1", pick("response", resp("s1"))))
+	subOp := vJObj()
+	vJAdd(subOp, true, "parameters", vJArr([]vJ{vJRef("#/parameters/Q1")}))
+	vJAdd(subOp, true, "responses", vJMember("default", vJRef("#/responses/S1")))
+	vJAdd(sub, true, "x-items", vJMember("I1", pick("pathItem", vJMember("post", subOp))))
+
+	root := vJObj()
+	vJAdd(root, true, "swagger", vJStr("2.0"))
+	vJAdd(root, true, "info", plain("title", "t", "version", "1"))
+	vJAdd(root, true, "definitions", defs("root-pet"))
+	params := vJObj()
+	vJAdd(params, true, "P1", pick("parameter", plain("name", "p1", "in", "query", "type", "string")))
+	vJAdd(params, true, "B", body)
+	vJAdd(root, true, "parameters", params)
+	vJAdd(root, true, "responses", vJMember("R1", pick("response", resp("r1"))))
+	op := vJObj()
+	vJAdd(op, true, "parameters", vJArr([]vJ{vJRef("sub/a.json#/parameters/Q1"), vJRef("#/parameters/B")}))
+	rs := vJObj()
+	vJAdd(rs, true, "200", vJRef("#/responses/R1"))
+	vJAdd(rs, true, "default", vJRef("sub/a.json#/responses/S1"))
+	vJAdd(op, true, "responses", rs)
+	item := vJObj()
+	vJAdd(item, true, "parameters", vJArr([]vJ{vJRef("#/parameters/P1")}))
+	vJAdd(item, true, "get", op)
+	if kind == "operation" {
+		vJAdd(item, true, "put", target)
+	}
+	paths := vJObj()
+	vJAdd(paths, true, "/p", item)
+	vJAdd(paths, true, "/q", vJRef("sub/a.json#/x-items/I1"))
+	vJAdd(root, true, "paths", paths)
+	return root, sub
+}
+
+func vC19Expand(kind string) {
+	o := vDocParams()
+	root, sub := vC19World(kind, vBuildDoc(kind, 1, "d", o))
+	rootB := vJBytes(root)
+	vAssumeWhole(vValidKind(rootB, "swagger"))
+	ld := &vAbsLoader{docs: map[string][]byte{vURoot: rootB, vUSub: vJBytes(sub)}}
+	var sw Swagger
+	if json.Unmarshal(rootB, &sw) != nil {
+		return
+	}
+	re, err := json.Marshal(&sw)
+	if err != nil {
+		return
+	}
+	vAssumeWhole(vValidKind(re, "swagger")) // the round-trip half: decided by the harnesses above
+	if err := ExpandSpec(&sw, &ExpandOptions{RelativeBase: vURoot, PathLoader: ld.load}); err != nil {
+		vNote("expansion error: " + err.Error())
+		return // the property speaks of successful expansions
+	}
+	out, err := json.Marshal(&sw)
+	vAssert(err == nil, kind+": the expanded specification does not encode")
+	if err != nil {
+		return
+	}
+	vAssert(vValidKind(out, "swagger"), kind+": a valid specification is no longer valid after expansion")
+}
+
+func vh_C19_expand_parameter() { vC19Expand("parameter") }
+func vh_C19_expand_response()  { vC19Expand("response") }
+func vh_C19_expand_schema()    { vC19Expand("schema") }
+func vh_C19_expand_operation() { vC19Expand("operation") }
